@@ -190,8 +190,7 @@ theorem foldl_set_range (g : ℕ → ℕ) (sh : List ℕ) :
   rw [getElem?_foldl_set]
   by_cases hj : j < sh.length
   · simp [hj]
-  · have : sh[j]? = none := by simp; omega
-    simp [hj, this]
+  · simp [hj]
 
 theorem LeL_of_getD : ∀ (ms ns : List ℕ), ms.length = ns.length → (∀ k, k < ns.length → ms.getD k 0 ≤ ns.getD k 0) → LeL ms ns
   | [], [], _, _ => List.Forall₂.nil
@@ -249,7 +248,7 @@ theorem project_ok {S P : Spec} {ns : List ℕ} (h : S.project ns = .ok P) :
     P = (if S.folded then (Spec.projectAxes S.unfold ns S.sampleSizes).fold else Spec.projectAxes S ns S.sampleSizes) := by
   unfold Spec.project at h
   simp only at h
-  split_ifs at h with h1 h2 h3 h3
+  split_ifs at h with h1 h2 h3
   all_goals
     have hl : ns.length = S.shape.length := by simpa using h1
     have hsl : S.sampleSizes.length = S.shape.length := by simp [Spec.sampleSizes]
